@@ -763,6 +763,77 @@ def oracle_layouts(ctx, nrng, budget):
     return worst
 
 
+ITER_GRIDS = [(8, 11, (2, 1), (10.0, 3.0)), (12, 7, (1, 2), (2.0, 30.0)), (9, 9, (2, 3), (50.0, 5.0)), (6, 14, (2, 2), (5.0, 5.0))]
+
+
+def check_iterations(case):
+    """Full run (default tol, max_iter given) of an eigen-capable host with all eigenvectors versus the direct
+    branch: baseline, final weights and the whole tol_history (the host-level stop rule is computed from arrays
+    that are 1-D on one branch and (M, N) on the other).  Returns (list of discrepancies, skipped?)."""
+    from pybaselines import Baseline2D
+    y, M, N, method = np.array(case['y'], dtype=float), case['M'], case['N'], case['method']
+    kw = dict(lam=tuple(case['lam']), diff_order=tuple(case['diff_order']), max_iter=case['max_iter'])
+    b = Baseline2D(np.arange(M, dtype=float), np.arange(N, dtype=float))
+    r0, p0 = quiet(getattr(b, method), y, num_eigens=None, **kw)
+    r1, p1 = quiet(getattr(b, method), y, num_eigens=(M, N), **kw)
+    t0, t1 = np.atleast_1d(p0['tol_history']), np.atleast_1d(p1['tol_history'])
+    tol = 1e-3        # the default tol of every host
+    if np.any(np.abs(t0 - tol) <= 1e-6 * tol):
+        return [], True       # the stop rule is decided by a tie at rounding level: not comparable
+    out = []
+    if t0.shape != t1.shape and method == 'brpls' and t0.ndim == 2 and t1.ndim == 2:
+        # brpls leaves its loops on discrete sign counts (fewer than two negative / positive residuals), which a
+        # rounding-level tie can flip in the very last sweep (observed on the unchanged tree: same baseline to 5e-11,
+        # one more outer sweep).  Compare everything before the last sweep of the shorter history; the baseline
+        # and weights comparisons below still apply in full.
+        k = min(t0.shape[0], t1.shape[0])
+        c = min(t0.shape[1], t1.shape[1])
+        a0 = np.concatenate([t0[0, :max(k - 2, 0)], t0[1:k - 1, :c].ravel()])
+        a1 = np.concatenate([t1[0, :max(k - 2, 0)], t1[1:k - 1, :c].ravel()])
+        e = np.abs(a0 - a1).max() / max(np.abs(a0).max(), 1e-300) if a0.size else 0.0
+        if abs(t0.shape[0] - t1.shape[0]) > 1 or not e <= 1e-6:
+            out.append(f'tol_history has shape {t1.shape} with num_eigens=({M},{N}) but {t0.shape} with num_eigens=None and the '
+                       f'common part before the last sweep differs by {e:.3e}')
+    elif t0.shape != t1.shape:
+        out.append(f'tol_history has shape {t1.shape} with num_eigens=({M},{N}) but {t0.shape} with num_eigens=None '
+                   f'(the stop rule fires at a different iteration)')
+    else:
+        e = np.abs(t0 - t1).max() / max(np.abs(t0).max(), 1e-300)
+        if not e <= 1e-6:
+            out.append(f'tol_history differs by {e:.3e} (relative)')
+    e = np.abs(r0 - r1).max() / np.abs(y).max()
+    if not e <= 1e-6:
+        out.append(f'baseline differs by {e:.3e} of max|y|')
+    w0, w1 = np.asarray(p0['weights'], dtype=float), np.asarray(p1['weights'], dtype=float)
+    if w0.shape != w1.shape or not np.abs(w0 - w1).max() <= 1e-6 * max(1.0, np.abs(w0).max()):
+        out.append('final weights differ' + ('' if w0.shape != w1.shape else f' by {np.abs(w0 - w1).max():.3e}'))
+    return out, False
+
+
+def oracle_iterations(ctx, nrng, budget):
+    """FIXED enumerated grid: every eigen-capable host run to its own stop rule (default tol, max_iter=20)."""
+    frng = np.random.default_rng(7070)
+    nbad = 0
+    for (M, N, d, lam) in ITER_GRIDS:
+        y = gen_surface(frng, M, N) * 10
+        for method in WHIT_EIGEN:
+            for max_iter in ((20,) if ctx.tier != 'thorough' and budget == 1 else (20, 5, 50)):
+                case = {'kind': 'iter', 'method': method, 'M': M, 'N': N, 'diff_order': list(d), 'lam': list(lam),
+                        'max_iter': max_iter, 'y': y.tolist()}
+                ctx.case(('iter', method, M, N, d, lam, max_iter), nontrivial=True, kind=f'oracle:full-iteration:{method}')
+                try:
+                    bad, skipped = check_iterations(case)
+                except Exception as exc:  # noqa
+                    ctx.fail(f'iteration:{method}:raises', f'{method} (default tol, max_iter={max_iter}) raised {type(exc).__name__}: {exc} on a {M}x{N} grid', case)
+                    continue
+                if bad:
+                    nbad += 1
+                    ctx.fail(f'iteration:{method}:eigen-vs-direct',
+                             f'{method} (default tol, max_iter={max_iter}) on a {M}x{N} grid, diff_order={d}, lam={lam}: all eigenvectors '
+                             f'(num_eigens=({M},{N})) versus the direct solve (num_eigens=None): ' + '; '.join(bad), case)
+    return nbad
+
+
 LONG_GRIDS = [(130, 6, 3), (80, 7, 4), (450, 6, 2), (200, 5, 3)]   # (long side, short side, diff_order of the long axis)
 
 
@@ -968,13 +1039,49 @@ def oracle_axes(ctx, nrng, budget):
 
 
 # ---------------------------------------------------------------- driver
+def gen_is_current(ctx, ok):
+    """coq/gen/GenC20.v is shared state: another process translating a different tree between our translation
+    and our build would make the proofs speak about the wrong source.  Re-derive the text from the tree under
+    test and compare; rebuild once if it differs."""
+    import os
+    import sys
+    from . import common
+    tools = os.path.join(common.VERIF, 'tools')
+    if tools not in sys.path:
+        sys.path.insert(0, tools)
+    ob = 'translate:GenC20-is-the-tree-under-test'
+    ctx.obligations.append(ob)
+    path = os.path.join(common.COQ, 'gen', 'GenC20.v')
+    for attempt in range(2):
+        try:
+            import gen_c20
+            want = gen_c20.gen_c20(common.REPO)
+        except Exception as exc:  # noqa
+            ctx.broke(ob, f'the generator refuses the tree under test: {type(exc).__name__}: {exc}')
+            return False
+        have = open(path).read() if os.path.exists(path) else None
+        if have == want:
+            ctx.discharged.append(ob)
+            return ok
+        if attempt == 0:
+            # discard what was recorded for the stale build and redo translation + build
+            names = set(f'theorem:{n}' for n in common.theorems_in(f'props/{ctx.prop}.v'))
+            ctx.obligations[:] = [o for o in ctx.obligations if o not in names and o != 'translate:GenC20']
+            ctx.discharged[:] = [o for o in ctx.discharged if o not in names and o != 'translate:GenC20']
+            ctx.broken[:] = [b for b in ctx.broken if not (b[0].startswith(('C20/', 'props/C20', 'build:', 'translate:GenC20')))]
+            ctx.translate(['GenC20'])
+            ok = ctx.build_props()
+    ctx.broke(ob, 'coq/gen/GenC20.v does not correspond to the tree under test (concurrent translation of another tree?)')
+    return False
+
+
 def run(ctx):
     ctx.rule = ('cases: exact-integer inputs (bases/weights in -3..3, all shapes M,N,a,c in 1..3 plus random up to 6x6x4x4) for '
                 '_face_splitting/_make_btwb on both hosts; WhittakerSystem2D built with integer eigen stand-ins (lam in {1,2,3,4,8}, '
                 'diff_order 1-3, num_eigens 1..size, square re-use branch forced every 10th case, weights random / uniform 2 or 3 / uniform 1, rhs_extra None and not None); individual_axes with an integer '
                 'position-sensitive stand-in method on sorted/permuted integer axes; float oracle on 2-D Whittaker methods with '
                 'max_iter=0 (sides from diff_order+2, per-axis lam/diff_order/num_eigens, 9 weight patterns: constant 0.01/0.25/1/7, near-constant 1+-1e-12, random, two-level, zero row+column, row/column structured), P-spline B\'WB and solve, '
-                'individual_axes with 6 real methods; memory layouts (C, Fortran copy, .T view, negative strides, non-contiguous C and F slices) of data and weights: enumerated grid over all 10 2-D Whittaker methods x layouts (incl. weights=None), and rotated through the integer correspondences and the random oracle; distinct = distinct canonical input; non-trivial as flagged per case kind')
+                'individual_axes with 6 real methods; full runs (default tol, max_iter 20) of the 7 eigen-capable hosts on 4 fixed grids comparing baseline, weights and tol_history between num_eigens=(M,N) and None; memory layouts (C, Fortran copy, .T view, negative strides, non-contiguous C and F slices) of data and weights: enumerated grid over all 10 2-D Whittaker methods x layouts (incl. weights=None), and rotated through the integer correspondences and the random oracle; distinct = distinct canonical input; non-trivial as flagged per case kind')
     ctx.trusted += [
         'scipy.linalg.eig_banded / eigh_tridiagonal: contract (smallest eigen-pairs of D\'D, orthonormal columns, null eigenvalues ~0) '
         'sampled against numpy.linalg.eigvalsh and dense D\'D; scipy.linalg.solve / spsolve / numpy matmul: not verified',
@@ -985,6 +1092,7 @@ def run(ctx):
     ctx.gate()
     ctx.translate(['GenC20'])
     ok = ctx.build_props()
+    ok = gen_is_current(ctx, ok)
     nrng = np.random.default_rng(ctx.rng.getrandbits(32))
 
     def stage(name, fn, *a):
@@ -998,14 +1106,15 @@ def run(ctx):
     stage('corr_axes', corr_axes)
     stage('eigen_contract', eigen_contract)
     budget = 1 if (ok and not ctx.broken) else 3
-    w4 = stage('oracle_layouts', oracle_layouts, budget)      # fixed enumerated grid first
+    w4 = stage('oracle_layouts', oracle_layouts, budget)      # fixed enumerated grids first
+    stage('oracle_iterations', oracle_iterations, budget)
     w1 = stage('oracle_whittaker', oracle_whittaker, budget)
     stage('oracle_pspline', oracle_pspline, budget)
     w3 = stage('oracle_long', oracle_long, budget)
     w2 = stage('oracle_axes', oracle_axes, budget)
     ctx.note(f'direct oracle budget x{budget}: largest error/tolerance ratio on Whittaker cases {w1:.2e} (long-axis grids {w3:.2e}, memory-layout grid {w4:.2e}), largest relative individual_axes '
-             f'difference {w2:.2e}; not covered: grids other than <=15x15 and the one-long-axis grids 130x6/80x7/450x6/200x5 (and transposes) in the float oracle, iteration beyond the first solve '
-             f'(max_iter=0 on purpose), update_penalty with inexact lam ratios, pspline methods other than pspline_asls, '
+             f'difference {w2:.2e}; not covered: grids other than <=15x15 and the one-long-axis grids 130x6/80x7/450x6/200x5 (and transposes) in the float oracle, iteration beyond the first solve in the random oracles '
+             f'(max_iter=0 there on purpose; full runs only on the fixed 4-grid x 7-host table), update_penalty with inexact lam ratios, pspline methods other than pspline_asls, '
              f'rhs_extra / user-supplied penalty arguments of solve')
 
 
@@ -1018,6 +1127,10 @@ def replay(rep):
         err, msg = check_axes(np.array(case['x']), np.array(case['z']), np.array(case['data']), ax, case['method'], kw)
         bad = bool(msg) or not err <= 1e-8
         print('replay individual_axes:', f'differs from the explicit 1-D loops by {err:.3e}' if bad else 'property holds on this input')
+        return 1 if bad else 0
+    if kind == 'iter':
+        bad, skipped = check_iterations(case)
+        print(f'replay full-iteration {case["method"]}:', '; '.join(bad) if bad else 'property holds on this input')
         return 1 if bad else 0
     if kind == 'layout':
         err, tol, what = check_layout(case)
